@@ -56,6 +56,19 @@ type c12Obs struct {
 	Panic      bool             `json:"panic"`
 }
 
+// a bid stream of the engine (ReceiveBids) that comes and goes
+type c12RecvStream struct {
+	grpc.ServerStream
+	ctx    context.Context
+	onSend func(*providerapiv1.Bid)
+}
+
+func (r *c12RecvStream) Context() context.Context { return r.ctx }
+func (r *c12RecvStream) Send(b *providerapiv1.Bid) error {
+	r.onSend(b)
+	return nil
+}
+
 type c12DecStream struct {
 	grpc.ServerStream
 	in      chan *providerapiv1.BidResponse
@@ -319,6 +332,21 @@ func c12Exec(t *testing.T, rng *vrng, plan int) (c12In, c12Obs) {
 			<-bids[id].done
 			in.Steps = append(in.Steps, c12Step{T: "abandon", ID: id})
 			obs.Outs = append(obs.Outs, "ok")
+		case r < 74: // a bid stream of the engine attaches and leaves (engine re-opens its bid stream, a
+			// second short-lived consumer): bids it forwards meanwhile are ordinary hand-offs; its
+			// end must not disturb what is pending
+			rctx, rcancel := context.WithCancel(ctx)
+			rcancel()
+			func() {
+				defer func() {
+					if r := recover(); r != nil {
+						obs.Panic = true
+					}
+				}()
+				_ = svc.ReceiveBids(&providerapiv1.EmptyMessage{}, &c12RecvStream{ctx: rctx, onSend: func(m *providerapiv1.Bid) {
+					handoff(int(m.BlockNumber-1000), m)
+				}})
+			}()
 		case r < 78: // the same digest decided on two decision streams at once (engine reconnect)
 			d := hex.EncodeToString([]byte(digests[rng.intn(len(digests))]))
 			dg, _ := hex.DecodeString(d)
